@@ -30,6 +30,57 @@ def pathStep : List String → Option String
     match bytesOfHex h with
     | some b => some (showRes (fun ps => hexOfBytes (printKeyPaths ps)) (parseKeyPaths b))
     | none => some "bad-request"
+  -- the intended structure is part of the request
+  | "jpexpect" :: h :: rest =>
+    match bytesOfHex h with
+    | some b =>
+      (match parseJsonPath b with
+       | .ok jp => let got := Canon.showJsonPath jp
+                   some (if got == " ".intercalate rest then "ok" else "MISMATCH got " ++ got)
+       | .err _ => some "MISMATCH rejected"
+       | .panic _ => some "panic"
+       | .fuel => some "fuel")
+    | none => some "bad-request"
+  | ["kpexpect", h, want] =>
+    match bytesOfHex h with
+    | some b =>
+      (match parseKeyPaths b with
+       | .ok ps => let got := Canon.showKeyPaths ps
+                   some (if got == want then "ok" else "MISMATCH got " ++ got)
+       | .err _ => some "MISMATCH rejected"
+       | .panic _ => some "panic"
+       | .fuel => some "fuel")
+    | none => some "bad-request"
+  -- print → parse round trip (floats need the external formatter: outside the model's reach)
+  | ["jproundtrip", h] =>
+    match bytesOfHex h with
+    | some b =>
+      (match parseJsonPath b with
+       | .ok jp =>
+         if (Canon.showJsonPath jp).contains 'D' then some "skip" else
+         let text := printJsonPath (fun _ => [63]) jp
+         (match parseJsonPath text with
+          | .ok jp2 => some (if Canon.showJsonPath jp2 == Canon.showJsonPath jp then "ok"
+                             else "MISMATCH reparsed " ++ Canon.showJsonPath jp2)
+          | _ => some ("MISMATCH printout rejected " ++ hexOfBytes text))
+       | .err _ => some "not-accepted"
+       | .panic _ => some "panic"
+       | .fuel => some "fuel")
+    | none => some "bad-request"
+  | ["kproundtrip", h] =>
+    match bytesOfHex h with
+    | some b =>
+      (match parseKeyPaths b with
+       | .ok ps =>
+         let text := printKeyPaths ps
+         (match parseKeyPaths text with
+          | .ok ps2 => some (if Canon.showKeyPaths ps2 == Canon.showKeyPaths ps then "ok"
+                             else "MISMATCH reparsed " ++ Canon.showKeyPaths ps2)
+          | _ => some ("MISMATCH printout rejected " ++ hexOfBytes text))
+       | .err _ => some "not-accepted"
+       | .panic _ => some "panic"
+       | .fuel => some "fuel")
+    | none => some "bad-request"
   | _ => none
 
 end Jsonb.Driver
